@@ -30,23 +30,30 @@ pub enum RAct {
     /// head = split_to(code); head.clear(); head.unsplit(buf); continue with head
     SwapHead(u8),
     DropOldest,
+    /// consume through Buf::copy_to_bytes(code) (3 = everything); the returned Bytes is the part
+    CopyOut(u8),
+    /// split() / split_to(code) and convert the part into a Vec<u8> (code 9 = split())
+    SplitVec(u8),
 }
 
 pub enum Part {
     B(Bytes),
     M(BytesMut),
+    V(Vec<u8>),
 }
 impl Part {
     fn ptr(&self) -> usize {
         match self {
             Part::B(b) => b.as_ptr() as usize,
             Part::M(m) => m.as_ptr() as usize,
+            Part::V(v) => v.as_ptr() as usize,
         }
     }
     fn len(&self) -> usize {
         match self {
             Part::B(b) => b.len(),
             Part::M(m) => m.len(),
+            Part::V(v) => v.capacity(),
         }
     }
 }
@@ -131,6 +138,21 @@ impl Sys {
                 }
             }
             v.push(RAct::Clear);
+            if p.appends {
+                let mut seen = vec![];
+                for c in 0..4u8 {
+                    let x = if c == 3 { l } else { resolve(c, l, p.quantum) };
+                    if !seen.contains(&x) {
+                        seen.push(x);
+                        v.push(RAct::CopyOut(c));
+                    }
+                }
+                v.push(RAct::SplitVec(9));
+                let x = resolve(1, l, p.quantum);
+                if x < l {
+                    v.push(RAct::SplitVec(1));
+                }
+            }
         }
         if p.roundtrip {
             v.push(RAct::RoundTrip);
@@ -293,6 +315,23 @@ impl Sys {
                 let old = oracle::harness(|| self.q.pop_front());
                 oracle::subject(|| drop(old));
             }
+            RAct::CopyOut(c) => {
+                let l = self.buf.len();
+                let at = if c == 3 { l } else { resolve(c, l, p.quantum) };
+                let part = oracle::subject(|| Part::B(self.buf.copy_to_bytes(at)));
+                self.push_part(part, p.k);
+            }
+            RAct::SplitVec(c) => {
+                let l = self.buf.len();
+                let part = oracle::subject(|| {
+                    let m = if c == 9 { self.buf.split() } else { self.buf.split_to(resolve(c, l, p.quantum)) };
+                    Part::V(Vec::from(m))
+                });
+                // converting a part that still shares the buffer into a Vec copies it by design: that allocation is the
+                // caller's choice, not the recycling handle's, and is not counted as a byte-buffer allocation of the protocol
+                oracle::clear_events();
+                self.push_part(part, p.k);
+            }
         }
     }
 
@@ -351,6 +390,7 @@ impl Sys {
             out.push(match part {
                 Part::B(_) => 1,
                 Part::M(_) => 2,
+                Part::V(_) => 3,
             });
             push(&mut out, n);
             push(&mut out, size);
@@ -366,6 +406,7 @@ impl Sys {
             let ctrl = match part {
                 Part::B(b) => b.verif_repr().ctrl,
                 Part::M(m) => m.verif_repr().ctrl,
+                Part::V(_) => 0,
             };
             let (cn, _, csz) = blk(ctrl, &mut names);
             push(&mut out, cn);
@@ -659,6 +700,7 @@ pub fn periodic(p: &Params, period: usize, rounds: usize, rep: &mut Report) -> (
                 alpha.push(RAct::RefillVia(n, mode));
             }
         }
+        alpha.extend([RAct::CopyOut(3), RAct::CopyOut(1), RAct::SplitVec(9), RAct::SplitVec(1)]);
     }
     for f in [false, true] {
         alpha.push(RAct::Split(f));
